@@ -91,7 +91,7 @@ def _gen_history(rng, allow_zero=True):
                 c["burn steps"] = nsteps
                 c["cycle length"] = rng.choice([10.0, 100.0, 500.0])
             if rng.random() < 0.5:
-                c["availability factor"] = rng.choice([1.0, 0.9, 0.5] + ([0.0] if kind == "bs" else []))
+                c["availability factor"] = rng.choice([1.0, 0.9, 0.5] + ([0.0, 0.0] if kind == "bs" else []))  # (0: an outage cycle)
             if rng.random() < 0.5 and nsteps:
                 c["power fractions"] = _maybe_repeat(rng, [rng.choice([1.0, 0.5, 0.0]) for _ in range(nsteps)])
             if rng.random() < 0.3:
